@@ -1051,9 +1051,13 @@ static int sch_etrs(sess_t *s) {
 				size_t used = s->blen[4];
 				log_ver(s, "ver", cp_etrs_ver(1, (const bn_t *)(s->b + 12 + used), (const bn_t *)(s->b + 16 + used), 4 - used,
 						(const etrs_t *)rb, s->blen[5], s->buf[0], s->blen[0], s->e[5]) == 1);
-				/* a higher threshold than the number of actual signers must not verify */
-				log_ver(s, "ver2", cp_etrs_ver(2, (const bn_t *)(s->b + 12 + used), (const bn_t *)(s->b + 16 + used), 4 - used,
-						(const etrs_t *)rb, s->blen[5], s->buf[0], s->blen[0], s->e[5]) == 1);
+				/* a higher threshold than the number of actual signers (one) must not verify.  With
+				 * thres > size cp_etrs_ver indexes its scratch arrays out of bounds (known finding), so that
+				 * case is only driven when the plan asks for it (opt n = 7). */
+				if (s->blen[5] >= 2 || s->opt[5] == 7) {
+					log_ver(s, "ver2", cp_etrs_ver(2, (const bn_t *)(s->b + 12 + used), (const bn_t *)(s->b + 16 + used), 4 - used,
+							(const etrs_t *)rb, s->blen[5], s->buf[0], s->blen[0], s->e[5]) == 1);
+				}
 			} else tr_printf("VER %d ver decode-failed\n", s->sid);
 			return 0;
 	}
@@ -1148,6 +1152,10 @@ static int sch_cmlhs(sess_t *s) {
 	for (int j = 0; j < SS; j++) { for (int l = 0; l < LL; l++) { f[j][l] = (dig_t)(1 + ((s->opt[7] >> (4 * (2 * j + l))) & 15)); } }
 	switch (s->phase) {
 		case 0:
+			/* in the ECDSA variant the key objects of type g2_t carry a prime-curve point in their first
+			 * coordinates only; give everything defined contents first */
+			for (int j = 0; j < 16; j++) { fp2_zero(H[j]->x); fp2_zero(H[j]->y); fp2_zero(H[j]->z); g2_set_infty(H[j]); }
+			for (int j = 0; j < 24; j++) { g1_set_infty(G[j]); }
 			log_rc(s, "init", cp_cmlhs_init(G[0]));
 			for (int j = 0; j < SS; j++) {
 				log_rc(s, "gen", cp_cmlhs_gen(cx[s->sid][j], hs[s->sid][j], LL, prf[s->sid][j], RLC_MD_LEN, s->b[j], H[6 + j], s->b[2 + j], H[8 + j], bls));
@@ -1158,7 +1166,8 @@ static int sch_cmlhs(sess_t *s) {
 				for (int l = 0; l < LL; l++) {
 					bn_rand_mod(s->b[4 + 2 * j + l], ord);
 					log_rc(s, "sig", cp_cmlhs_sig(G[1 + j], H[j], G[3 + 2 * j + l], G[7 + 2 * j + l], G[11 + 2 * j + l], H[2 + 2 * j + l],
-							s->b[4 + 2 * j + l], data, l, cx[s->sid][j][l], G[0], prf[s->sid][j], RLC_MD_LEN, s->b[j], s->b[2 + j], bls));
+							s->b[4 + 2 * j + l], data, l, cx[s->sid][j][l], G[0], prf[s->sid][j], RLC_MD_LEN, s->b[2 + j], s->b[j], bls));
+					/* (the definition takes d before sk; the prototype in relic_cp.h names them the other way round) */
 				}
 			}
 			return 1;
@@ -1191,8 +1200,20 @@ static int sch_cmlhs(sess_t *s) {
 			ok &= xmit_g2(s, "s", H[11], H[10], (int)s->opt[1]);
 			ok &= xmit_g1(s, "as0", G[21], G[15], (int)s->opt[1]);
 			ok &= xmit_g1(s, "as1", G[22], G[16], (int)s->opt[1]);
-			ok &= xmit_g2(s, "pk0", H[12], H[6], (int)s->opt[1]);
-			ok &= xmit_g2(s, "pk1", H[13], H[7], (int)s->opt[1]);
+			if (bls) {
+				ok &= xmit_g2(s, "pk0", H[12], H[6], (int)s->opt[1]);
+				ok &= xmit_g2(s, "pk1", H[13], H[7], (int)s->opt[1]);
+			} else {
+				/* the ECDSA keys are prime-curve points kept in g2_t objects (g2_set_g1 / g1_set_g2) */
+				for (int j = 0; j < 2; j++) {
+					g1_set_g2(s->g1[j], H[6 + j]);
+					fp_set_dig(s->g1[j]->z, 1);
+					s->g1[j]->coord = BASIC;
+					ok &= xmit_g1(s, j ? "pk1" : "pk0", s->g1[2 + j], s->g1[j], (int)s->opt[1]);
+					fp2_zero(H[12 + j]->x); fp2_zero(H[12 + j]->y); fp2_zero(H[12 + j]->z);
+					g2_set_g1(H[12 + j], s->g1[2 + j]);
+				}
+			}
 			ok &= xmit_g2(s, "y0", H[14], H[8], (int)s->opt[1]);
 			ok &= xmit_g2(s, "y1", H[15], H[9], (int)s->opt[1]);
 			ok &= xmit_bn(s, "m", s->b[12], s->b[8], 0);
